@@ -7,6 +7,7 @@
 package main
 
 import (
+	"bytes"
 	"encoding/hex"
 	"fmt"
 	"math/big"
@@ -96,7 +97,10 @@ var epochs = []epoch{
 
 type env struct {
 	db *state.StateDB
+	vr *hx.Run // for the direct judgement "nothing handed into the call was mutated"
 }
+
+var contractBalance = big.NewInt(777000777)
 
 func newEnv() *env {
 	db, err := state.New(common.Hash{}, state.NewDatabase(aquadb.NewMemDatabase()))
@@ -105,7 +109,8 @@ func newEnv() *env {
 	}
 	db.CreateAccount(contract)
 	db.CreateAccount(sender)
-	return &env{db}
+	db.SetBalance(contract, new(big.Int).Set(contractBalance))
+	return &env{db: db}
 }
 
 // tracer records, for the probes, the stack length seen at every step and the pc of a faulting step.
@@ -225,6 +230,8 @@ func (e *env) run(cfg *params.ChainConfig, height uint64, code, input []byte, ga
 		Origin:      sender, GasPrice: big.NewInt(1), Coinbase: common.Address{}, GasLimit: runGas,
 		BlockNumber: new(big.Int).SetUint64(height), Time: big.NewInt(1000), Difficulty: big.NewInt(1),
 	}
+	value := new(big.Int)
+	inputCopy := append([]byte{}, input...)
 	vcfg := vm.Config{}
 	if tr != nil {
 		tr.faultPC = -1
@@ -233,8 +240,39 @@ func (e *env) run(cfg *params.ChainConfig, height uint64, code, input []byte, ga
 	snap := e.db.Snapshot()
 	e.db.SetCode(contract, code)
 	evm := vm.NewEVM(ctx, e.db, cfg, vcfg)
-	ret, left, err = evm.Call(vm.AccountRef(sender), contract, input, gas, new(big.Int))
+	ret, left, err = evm.Call(vm.AccountRef(sender), contract, input, gas, value)
 	e.db.RevertToSnapshot(snap)
+	// aliasing judgement: every big.Int / byte slice handed INTO the call (call value, block context, call data, the state's
+	// balance object) must be unchanged afterwards — a pointer pushed on the operand stack instead of a copy ends up in the
+	// integer pool and is overwritten by the next instruction that takes a recycled word.
+	if e.vr != nil {
+		mut := func(sig, have, want string) {
+			e.vr.Violate("env-input-mutated", sig, map[string]string{"code": hx.Hex(code), "calldata": hx.Hex(inputCopy), "height": fmt.Sprint(height)},
+				fmt.Sprintf("%s handed into the call was mutated by the program: now %s, was %s", sig, have, want))
+		}
+		if value.Sign() != 0 {
+			mut("CALLVALUE", value.String(), "0")
+		}
+		if ctx.GasPrice.Cmp(big.NewInt(1)) != 0 {
+			mut("GASPRICE", ctx.GasPrice.String(), "1")
+		}
+		if !ctx.BlockNumber.IsUint64() || ctx.BlockNumber.Uint64() != height {
+			mut("NUMBER", ctx.BlockNumber.String(), fmt.Sprint(height))
+		}
+		if ctx.Time.Cmp(big.NewInt(1000)) != 0 {
+			mut("TIMESTAMP", ctx.Time.String(), "1000")
+		}
+		if ctx.Difficulty.Cmp(big.NewInt(1)) != 0 {
+			mut("DIFFICULTY", ctx.Difficulty.String(), "1")
+		}
+		if !bytes.Equal(input, inputCopy) {
+			mut("CALLDATA", hx.Hex(input), hx.Hex(inputCopy))
+		}
+		if b := e.db.GetBalance(contract); b.Cmp(contractBalance) != 0 {
+			mut("BALANCE", b.String(), contractBalance.String())
+			e.db.SetBalance(contract, new(big.Int).Set(contractBalance))
+		}
+	}
 	return
 }
 
@@ -551,6 +589,7 @@ func main() {
 	rng := hx.NewRng(run.Seed)
 	run.Watch(60*time.Second, 3<<30, func(cur string) string { return cur })
 	e := newEnv()
+	e.vr = run
 	tSec := time.Now()
 	lap := func(name string) {
 		run.Notes["wall_"+name] = fmt.Sprintf("%.1fs", time.Since(tSec).Seconds())
@@ -1556,5 +1595,48 @@ func main() {
 		}
 	}
 	lap("tree")
+	// ---- 10. environment words against integer-pool recycling: <pusher> <consumer> <pushes that take recycled words> <pusher again> ----
+	pushers := []struct {
+		name string
+		code []byte
+	}{{"CALLVALUE", []byte{0x34}}, {"GASPRICE", []byte{0x3a}}, {"NUMBER", []byte{0x43}}, {"TIMESTAMP", []byte{0x42}}, {"DIFFICULTY", []byte{0x44}},
+		{"GASLIMIT", []byte{0x45}}, {"BALANCE", []byte{0x30, 0x31}}, {"ADDRESS", []byte{0x30}}, {"CALLER", []byte{0x33}}, {"ORIGIN", []byte{0x32}},
+		{"COINBASE", []byte{0x41}}, {"CALLDATASIZE", []byte{0x36}}, {"CALLDATALOAD", []byte{0x60, 0x00, 0x35}}, {"CODESIZE", []byte{0x38}},
+		{"MSIZE", []byte{0x59}}, {"PC", []byte{0x58}}, {"GAS", []byte{0x5a}}}
+	consumers := [][]byte{
+		{0x50},                   // POP
+		{0x60, 0x05, 0x01},       // PUSH1 5 ADD
+		{0x15},                   // ISZERO
+		{0x60, 0x00, 0x55},       // PUSH1 0 SSTORE
+		{0x60, 0x00, 0x52},       // PUSH1 0 MSTORE
+		{0x80, 0x02},             // DUP1 MUL
+		{0x60, 0x03, 0x90, 0x03}, // PUSH1 3 SWAP1 SUB
+		{0x60, 0x01, 0x1b},       // PUSH1 1 SHL
+		{0x19, 0x50},             // NOT POP
+	}
+	refills := [][]byte{
+		{0x60, 0x09, 0x60, 0x21},             // PUSH1 9 PUSH1 0x21
+		{0x58, 0x59, 0x61, 0x12, 0x34},       // PC MSIZE PUSH2 0x1234
+		{0x60, 0x07, 0x80, 0x80},             // PUSH1 7 DUP1 DUP1
+		{0x36, 0x38, 0x60, 0x2a, 0x60, 0x2b}, // CALLDATASIZE CODESIZE PUSH1 42 PUSH1 43
+	}
+	for _, ep := range []epoch{epochs[0], epochs[3]} {
+		for _, pu := range pushers {
+			for _, co := range consumers {
+				for _, rf := range refills {
+					a := newAsm()
+					a.op(pu.code...)
+					a.op(co...)
+					a.op(rf...)
+					a.op(pu.code...) // read the same environment word again, after recycled words were handed out
+					a.pushN(0)
+					a.op(0x52)
+					retTail(a, 32)
+					emit("env:"+pu.name, ep, 100000, a.finish(), []byte{0xca, 0xfe, 0xba, 0xbe})
+				}
+			}
+		}
+	}
+	lap("env")
 	run.Finish()
 }
